@@ -123,7 +123,9 @@ func Load(dir string, overlay map[string][]byte, tags string, patterns []string)
 		}
 	}
 	for _, p := range []string{"encoding/binary", "bytes", "strings", "sort", "container/list", "errors", "math/bits",
-		"unicode/utf8", "math", "unicode", "internal/byteorder", "slices", "cmp", "io", "internal/stringslite"} {
+		"unicode/utf8", "math", "unicode", "internal/byteorder", "slices", "cmp", "io", "internal/stringslite",
+		// pure key helpers of the TiKV client (NextKey, PrefixNextKey, CmpKey)
+		"github.com/tikv/client-go/v2/kv"} {
 		e.allowPkgs[p] = true
 	}
 	for _, p := range []string{"github.com/kubewharf/kubebrain-client/api/v2rpc", "go.etcd.io/etcd/api/v3/etcdserverpb",
